@@ -52,7 +52,7 @@ def run(ctx):
         fam[s["family"]].append(s)
     for f in fam.values():
         f.sort(key=lambda s: json.dumps(s, sort_keys=True))
-    need = {"grammar": 5000, "fields": 3000, "damage": 10000, "json": 2800}
+    need = {"grammar": 5000, "fields": 4500, "damage": 10000, "json": 2800}
     short = {k: len(fam[k]) for k, n in need.items() if len(fam[k]) < n}
     if short:
         raise vk.Inconclusive("too few scripts from TLC: %s" % short)
